@@ -2,7 +2,7 @@
 panic-site discipline over the call-graph closure of the peer-facing entries."""
 import json, os
 from ..engine import *
-from ..analysis import term_str, strip, roots, subterms, contains, callee_of, BRANCH, POLL, TRANSPARENT
+from ..analysis import term_str, term_sig, strip, roots, subterms, contains, callee_of, BRANCH, POLL, TRANSPARENT
 from ..facts import op_place
 from .names import *
 
@@ -1085,6 +1085,28 @@ def r4(ctx):
                 ctx.check(P, rule, "verify_upgrade refuses at a leaf before descending further", good, "iter.factor() == 2 => Err dominates iter.left_child() in the loop",
                           "the loop in verify_upgrade that descends with %s towards the index of a peer-supplied node has no leaf test (`iter.factor() == 2` => error) before the step: on a leaf the step is a no-op, and an index left of the subtree keeps the loop spinning forever" % callee_of(fu.blocks[s_].term).split("::")[-1],
                           [site_desc(fu, s_)], key="C09|C09.R4|verify_upgrade|leaf test before descent")
+    BSP = "tree::merkle_tree::MerkleTree::block_and_seek_proof"
+    fb = ctx.fn(BSP)
+    if need(ctx, P, rule, BSP, fb):
+        # the climb `while iter.index() != root { sibling(); ..; parent() }` from the requested node
+        # ends only if `root` is one of its ancestors; the callers in the upgrade proofs pass a root
+        # that contains the seek position, which says nothing about the requested node (defect D15):
+        # the function itself must refuse a root that does not contain the node
+        climbs = [s_ for s_, t_ in fb.calls() if (t_.get("callee") or "").endswith("flat_tree::Iterator::parent")]
+        lp = [(h_, b_) for h_, b_, _ in fb.loops() if any(s_ in b_ for s_ in climbs)]
+        if need(ctx, P, rule, "block_and_seek_proof: climbing loop (parent())", lp):
+            h_, body_ = sorted(lp, key=lambda hb: -len(hb[1]))[0]
+            good = False
+            for b_, o, tr, fl in bool_switches(fb, lambda o: o[0] == "call" and o[2].endswith("flat_tree::Iterator::contains") and len(o[3]) == 2):
+                it, what = strip(o[3][0]), strip(o[3][1])
+                it_ok = it[0] == "call" and it[2].endswith("flat_tree::Iterator::new") and strip(it[3][0]) == ("param", "root")
+                what_ok = term_sig(what).endswith("indexed).index") or term_sig(what).endswith(".index") and "indexed" in term_sig(what)
+                if it_ok and what_ok and tr is not None and fl is not None and fb.dominates(tr, h_) and not fb.can_reach(fl, h_):
+                    vals = [t_ for _, _, t_ in ret_values_in_region(fb, fl)]
+                    good = bool(vals) and all(is_agg(t_, "Err") for t_ in vals)
+            ctx.check(P, rule, "block_and_seek_proof climbs only towards an ancestor of the requested node", good, "Iterator::new(root).contains(indexed.index) or Err, before the climb",
+                      "block_and_seek_proof climbs from the requested node with sibling() / parent() until it meets `root` without first checking that `root` contains that node: a hash node that straddles the upgrade start, sent with a seek and an upgrade, makes upgrade_proof pass a root that is not its ancestor, and the climb never ends (multiply overflow in node())",
+                      [loc(fb, h_)], key="C09|C09.R4|block_and_seek_proof|root contains node")
     fx = ctx.fn(NEXT_SLOT)
     if need(ctx, P, rule, NEXT_SLOT, fx):
         rets = [t for _, _, t in ret_assigns(fx)]
@@ -1149,13 +1171,49 @@ def r6(ctx):
     c03.r1(ctx, P, "C09.R6")
 
 
-RULES = [r1, r3, r4, r5, r6]
+def r7(ctx):
+    """the reviewed assumption behind `self.signature.expect(..)` in create_valueless_proof — the tree
+    signature is Some whenever length > 0 — re-verified where it could break: MerkleTree::commit
+    replaces the tree head (roots, length, byte length, fork, signature) only as a whole and only
+    from an upgraded changeset, which carries a signature; a changeset that is not upgraded (a block
+    fetched at the current length: signature None) must leave all five alone."""
+    rule = "C09.R7"
+    fa = ctx.fn(MT_COMMIT)
+    if not need(ctx, P, rule, MT_COMMIT, fa):
+        return
+    HEAD = ("self.roots", "self.length", "self.byte_length", "self.fork", "self.signature")
+    ws = [(b_, si_, p_) for b_, si_, p_ in assign_sites_prefix(fa, "self") if p_ in HEAD]
+    up = [tr for _, o, tr, fl in bool_switches(fa, lambda o: path_of(strip(o)) == "changeset.upgraded")]
+    if not (need(ctx, P, rule, "commit: assignments to the tree head", ws) and need(ctx, P, rule, "commit: branch on changeset.upgraded", up)):
+        return
+    loose = [(b_, si_, p_) for b_, si_, p_ in ws if not any(fa.dominates(e, b_) for e in up if e is not None)]
+    ctx.check(P, rule, "the tree head is replaced only from an upgraded changeset", not loose, "roots / length / byte_length / fork / signature assigned under changeset.upgraded",
+              "MerkleTree::commit assigns %s outside `if changeset.upgraded`: committing a changeset that is not upgraded (signature None) then clears or replaces part of the tree head — `signature` becomes None while length stays > 0, and the next upgrade request panics on `signature needs to be set`" % sorted(p_ for _, _, p_ in loose),
+              [loc(fa, b_, si_) for b_, si_, _ in loose], key="C09|C09.R7|commit|head assigned outside upgraded")
+    got = sorted(set(p_ for _, _, p_ in ws))
+    ctx.check(P, rule, "the tree head is replaced as a whole", got == sorted(HEAD), "all five fields come from the same changeset", "commit assigns only %s of the tree head" % got, key="C09|C09.R7|commit|head fields")
+    srcs = {p_: term_str(fa.origin_rvalue(fa.blocks[b_].stmts[si_]["rv"], b_, si_)) for b_, si_, p_ in ws}
+    ctx.check(P, rule, "each head field takes the changeset's field of the same name", all(v == "changeset." + k.split(".", 1)[1] for k, v in srcs.items()), "self.x = changeset.x",
+              "commit copies %s" % srcs, key="C09|C09.R7|commit|field wiring")
+    # nobody else writes the signature of the tree
+    others = []
+    for fx in ctx.all_fas():
+        nm_ = fn_of(fx.body.name)
+        if not nm_.startswith("tree::merkle_tree::MerkleTree::") or nm_ in (MT_COMMIT,):
+            continue
+        for b_, si_, p_ in assign_sites_prefix(fx, "self"):
+            if p_ == "self.signature":
+                others.append((nm_, loc(fx, b_, si_)))
+    ctx.check(P, rule, "only commit (and the constructor) sets the tree signature", not others, "no other method of MerkleTree assigns self.signature", "self.signature is also assigned in %s" % others, key="C09|C09.R7|signature writers")
+
+
+RULES = [r1, r3, r4, r5, r6, r7]
 CONTROLS = ["c09_unguarded_index", "c09_loop_cannot_exit"]
 EXPLANATION = ("C09 (no peer request or proof can panic or hang the node): enumerates every panic-capable construct (bounds / subtraction / division asserts, unwrap/expect, Index on Vec/slice, "
                "panic! entry points, RefCell borrows, drain/split/pow) in the call-graph closure of create_proof and verify_and_apply_proof and requires each to be discharged by constant operands "
                "(A1), an automatically found dominating comparison guard over the same terms (A2), a reviewed entry whose required guard is re-verified to dominate (A3) or a reviewed invariant "
                "reported as assumed (A4) (R1, which subsumes bounds provenance: an index bounded against one collection and applied to another is undischarged); requires every natural loop in that "
-               "closure to have an exit condition its body can change (R3); requires the anchored request validations to be present and to precede every use (R4) and to use the prescribed comparison, boundary included (R5); re-verifies under C09 the reviewed assumption behind into_proof's expect: create_proof returns Ok(None) before into_proof whenever the block value cannot be read, with or without an upgrade (R6 = the clauses of C03.R1).")
+               "closure to have an exit condition its body can change (R3); requires the anchored request validations to be present and to precede every use (R4) and to use the prescribed comparison, boundary included (R5); re-verifies under C09 the reviewed assumption behind into_proof's expect: create_proof returns Ok(None) before into_proof whenever the block value cannot be read, with or without an upgrade (R6 = the clauses of C03.R1), and the one behind `self.signature.expect(..)`: MerkleTree::commit replaces the tree head, signature included, only as a whole and only from an upgraded changeset (R7).")
 NOT_DECIDED = ("termination of loops whose exit depends on flat-tree arithmetic; panics inside dependency crates (flat_tree, compact_encoding, blake2, ed25519-dalek, intmap are leaves); memory exhaustion; "
                "that the A4 invariants (listed in the evidence as assumed) actually hold; add/mul/shl overflow (numeric fields are bounded below 2^40 by the property).")
 ASSUMPTIONS = ["numeric fields of requests and proofs are below 2^40", "A4 invariants in rules/panic_sites.json (each with a one-line reason) hold"]
